@@ -189,7 +189,13 @@ def ref_signature(kind, f):
     if kind == 'python':
         return ('py', tuple(a.type for a in f.seq_arguments), tuple(sorted((k, v[0].type) for k, v in f.map_arguments.items())))
     if kind == 'python-brace':
-        return ('map', tuple(sorted(((isinstance(k, str), k), tuple(sorted(v[0].types))) for k, v in f.argument_map.items())))
+        # the type set of an argument is the intersection of the constraints of ALL its occurrences
+        def common(v):
+            t = set(v[0].types)
+            for a in v[1:]:
+                t &= set(a.types)
+            return tuple(sorted(t))
+        return ('map', tuple(sorted(((isinstance(k, str), k), common(v)) for k, v in f.argument_map.items())))
     return ('set', tuple(sorted(f.arguments)))
 
 
@@ -240,6 +246,8 @@ def oracle_plan(shape):
         single = len(sel) <= 1 or (len(sel) == 2 and sel[0] == 0)
         if m.group(3) == 'omit-ok' and not single:
             return 'omission tolerated for msgstr[%d] although the form is selected for n in %r' % (i, sel[:6])
+        if m.group(3) == 'strict' and single and sel != [1]:
+            return 'omission NOT tolerated for msgstr[%d] although the form is selected only for n in %r' % (i, sel[:6])
         if m.group(1) == 'msgid' and sel != [1]:
             return 'msgstr[%d] compared against msgid although it is selected for n in %r' % (i, sel[:6])
         if m.group(1) not in ('msgid', 'msgid_plural'):
@@ -248,6 +256,10 @@ def oracle_plan(shape):
 
 
 # ---------------------------------------------------------------- generators
+# occurrences of one argument with different constraints (their intersection is the argument's type set)
+REPEATED = {'python-brace': ['{0} {0:d}', '{0:d} {0}', '{a} {a:f}', '{a:s} {a}', '{0} {0:n} {0:d}', '{1:f} {1}'],
+            'python': ['%(a)s %(a)s', '%(a)d %(a)i'], 'c': ['%1$d %1$i'], 'perl-brace': ['{a} {a}']}
+
 POOL = {
     'c': (['%d', '%s', '%ld', '%c', '%f', '%u', '%x', '%5d', '%-3s', '%lu', '%lld', '%hd', '%g', '%p', '%%', ' x ', '%i', '%zu'],
           ['%1$s', '%2$d', '%3$ld', '%1$d', '%2$s', '%3$c', '%4$f', '%2$u', '%*d', '%.*f', '%1$*2$d', '%%', ' y ']),
@@ -266,6 +278,8 @@ def gen_pairs(rng, kind, n):
         pool = unn if rng.random() < 0.5 else num
         k = rng.randrange(0, 5)
         src = [rng.choice(pool) for _ in range(k)]
+        if rng.random() < 0.15:
+            src.append(rng.choice(REPEATED[kind]))
         r = rng.random()
         dst = list(src)
         if r < 0.25:
@@ -278,6 +292,8 @@ def gen_pairs(rng, kind, n):
             dst[rng.randrange(len(dst))] = rng.choice(pool)
         elif r < 0.9:
             dst = [rng.choice(unn + num) for _ in range(rng.randrange(0, 4))]
+        elif r < 0.97:
+            dst.insert(rng.randrange(len(dst) + 1), rng.choice(REPEATED[kind]))
         sep = rng.choice(['', ' ', ' and '])
         out.append((kind, sep.join(src), sep.join(dst)))
     return out
@@ -333,6 +349,15 @@ def check(ctx):
     pairs = []
     for kind in KINDS:
         pairs += gen_pairs(rng, kind, n)
+    # one argument used once in the source and twice (with different constraints) in the translation, and vice versa: exhaustive over the specs
+    import itertools
+    specs = ['', ':s', ':d', ':f', ':n', ':>5', ':.2']
+    for k in ('0', 'a'):
+        for s1, s2, s3 in itertools.product(specs, repeat=3):
+            one = '{%s%s}' % (k, s1)
+            two = '{%s%s} and {%s%s}' % (k, s2, k, s3)
+            pairs.append(('python-brace', one, two))
+            pairs.append(('python-brace', two, one))
     payloads = []
     for (kind, src, dst) in pairs:
         for omit in (False, True):
